@@ -110,7 +110,25 @@ var inventory = []string{
 func genCase(t *rapid.T) Case {
 	c := Case{Goroutines: rapid.IntRange(4, 16).Draw(t, "goroutines")}
 	np := rapid.IntRange(3, 8).Draw(t, "npool")
-	for i := 0; i < np; i++ {
+	// items 0 and 1: two zig-zag lines that cross each other properly many times,
+	// so that the proper-intersection and hull paths run on shared coordinates
+	for k := 0; k < 2; k++ {
+		g := &model.G{Kind: model.LineString, Layout: int(rapid.SampledFrom([]geom.Layout{geom.XY, geom.XYZ}).Draw(t, "zlayout"))}
+		n := rapid.IntRange(4, 12).Draw(t, "zn")
+		for i := 0; i < n; i++ {
+			x, y := float64(3*i+k)+0.5*float64(k), float64(7*((i+k)%2))+float64(rapid.IntRange(0, 2).Draw(t, "zy"))+0.25
+			if k == 1 {
+				x, y = y, x
+			}
+			c2 := []float64{x, y}
+			if g.Layout == int(geom.XYZ) {
+				c2 = append(c2, float64(i))
+			}
+			g.C1 = append(g.C1, model.Bits(c2))
+		}
+		c.Pool = append(c.Pool, *g)
+	}
+	for i := 2; i < np; i++ {
 		c.Pool = append(c.Pool, *genPoolGeom(t))
 	}
 	nc := rapid.IntRange(30, 150).Draw(t, "ncalls")
